@@ -707,6 +707,7 @@ static void judge(int s, long k, const trace_t *f)
 static void enumerate(void)
 {
 	vf_alloc_install();
+	vf_alloc_track(1);
 	vk_load();
 	rc_rng_install();
 	lj_select_provider(vf_param);
